@@ -130,11 +130,11 @@ fn show(s: &Option<Seen>) -> String {
     }
 }
 
-fn random_case(r: &mut Rng, s: &str) -> String {
+pub(crate) fn random_case(r: &mut Rng, s: &str) -> String {
     s.chars().map(|c| if r.chance(1, 2) { c.to_ascii_uppercase() } else { c.to_ascii_lowercase() }).collect()
 }
 
-const EXPIRES: &[u64] = &[
+pub(crate) const EXPIRES: &[u64] = &[
     0,
     1,
     59,
@@ -152,12 +152,12 @@ const EXPIRES: &[u64] = &[
     9999999999999999999,
     10000000000000000000,
 ];
-const TYPES: &[&str] = &[
+pub(crate) const TYPES: &[&str] = &[
     "DPoP", "magic", "İX", "ΑΣ", "Bearer ", " bearer", "bearer\0", "", "ＢＥＡＲＥＲ", "bearerx", "bear", "macx", "ma", "N_A", "MAC ", "ǅ", "ẞ", "BEARER\u{0301}", "K",
     "pop", "Mac-1",
 ];
 
-fn scope_string(r: &mut Rng) -> String {
+pub(crate) fn scope_string(r: &mut Rng) -> String {
     match r.below(12) {
         0 => String::new(),
         1 => r.pick(&["a  b", " a", "a ", " ", "  ", "a\tb", "a\u{a0}b", "a\u{2003}b c", "a\nb", "read write", "a\u{3000}b", "a\r\nb c"]).to_string(),
@@ -228,7 +228,7 @@ fn conforming(r: &mut Rng, variant: u8) -> Vec<(String, JV)> {
     ms
 }
 
-fn base_case(r: &mut Rng) -> TokCase {
+pub(crate) fn base_case(r: &mut Rng) -> TokCase {
     let variant = r.below(2) as u8;
     let doc = JV::Obj(conforming(r, variant));
     TokCase {
